@@ -193,6 +193,9 @@ func (f *Frame) scanEffects(blocks map[*ssa.BasicBlock]bool, ef *effects, depth 
 	for _, b := range bl {
 		for _, instr := range b.Instrs {
 			switch in := instr.(type) {
+			case *ssa.Select:
+				ef.ghosts["$sel"] = true
+				e.ghostDecl["$sel"] = "Int"
 			case *ssa.Store:
 				f.storeEffect(in.Addr, blocks, ef)
 			case *ssa.MapUpdate:
